@@ -414,7 +414,7 @@ theorem settleSubs_back (cfg : Cfg) (p : Proc) (s : St) :
     · simp only [Bool.false_eq_true, if_false]
       split
       · exact id
-      · simp only [ite_pair_snd]
+      · rw [nextTurn_causes]
         intro h
         have := selectFlows_back _ _ _ _ _ _ h
         exact this
@@ -436,7 +436,7 @@ theorem settleSubs_conf (cfg : Cfg) (p : Proc) (s : St) :
     · simp only [Bool.false_eq_true, if_false, Cfg.ideal]
       split
       · intro _; rfl
-      · simp only [ite_pair_snd]
+      · rw [nextTurn_causes]
         intro h
         rw [selectFlows_conf _ _ _ _ _ _ h]
         rfl
